@@ -1,8 +1,11 @@
 from ..runner import Harness, Spec
+from ..translate import go_translator
 
 SPEC = Spec(
     pid="C20",
     lean_modules=["OtelVerif.Props.C20"],
+    # shape fact: every close(<x>.shutdownChan) in otelcol/ is under a deferred recover() or sync.Once (C20_close_is_recovered)
+    translators=[go_translator("shutdownshape", "OtelVerif/Gen/ShutdownShape.lean")],
     harnesses=[
         # deterministic, gated histories: exact differential (D) against the LTS + Lean trace monitor (M) + Go oracles
         Harness(name="runloop", module="otelcol", pkg="otelcol",
@@ -12,6 +15,10 @@ SPEC = Spec(
         Harness(name="exhaustive", module="otelcol", pkg="otelcol",
                 files={"zz_verif_c20_runloop_test.go": "c20/runloop_test.go", "zz_verif_c20_exhaustive_test.go": "c20/exhaustive_test.go"},
                 test="TestVerifC20Exhaustive", driver="drv_c20", n={"quick": 3, "thorough": 5}, timeout_s=1500),
+        # tight concurrent-Shutdown stress: min(4, GOMAXPROCS) callers through a spin barrier (monitored only)
+        Harness(name="stress", module="otelcol", pkg="otelcol",
+                files={"zz_verif_c20_runloop_test.go": "c20/runloop_test.go", "zz_verif_c20_concurrent_test.go": "c20/concurrent_test.go"},
+                test="TestVerifC20ConcurrentShutdown", driver="drv_c20", n={"quick": 400, "thorough": 4000}, timeout_s=1500),
         # native scheduling, no gates: monitored only (M)
         Harness(name="race", module="otelcol", pkg="otelcol",
                 files={"zz_verif_c20_runloop_test.go": "c20/runloop_test.go"},
@@ -36,7 +43,11 @@ SPEC = Spec(
          "sleeping 0-0.3 ms, 1-4 reload triggers and 1-3 Shutdown() calls (1/3 of "
          "the cases plus SIGTERM / async error / cancel) from goroutines with random 0-3 ms delays; the event log is checked by the "
          "Lean monitor C20.check (proved sound: C20_check_sound) and by a Go oracle (rest in select with the request dropped); "
-         "non-trivial = at least one reload happened; distinct = distinct scenario descriptor.",
+         "non-trivial = at least one reload happened; distinct = distinct scenario descriptor. stress: min(4, GOMAXPROCS) "
+         "Shutdown() callers released through a spin barrier on fresh collectors (20-59 trials each, shutdownChan re-made between "
+         "trials) and, every 4th case, on a Running collector (one trial, then Run must return); a panic in a caller is "
+         "C20/shutdown/concurrent-call-panicked (Go oracle and Lean-side prop callsafe); Shutdown() from k>=2 goroutines in the "
+         "gated and race harnesses also goes through the spin barrier.",
     trusted_base=[
         "Lean 4.33.0 kernel; axioms per theorem listed under axioms_per_theorem (subset of propext, Classical.choice, Quot.sound)",
         "hand-written LTS of otelcol/collector.go (Run, setupConfigurationComponents, reloadConfiguration, shutdown, Shutdown) in "
@@ -46,6 +57,9 @@ SPEC = Spec(
         "recover of the double close; modelled, not verified",
         "service.Service.Start/Shutdown and confmap.Resolver are exercised for real but modelled as single fallible steps; that "
         "service.Shutdown shuts every started component down is C10's statement, observed here by the component-level trace monitor",
+        "translator translators/cmd/shutdownshape (go/ast): for every close(<x>.shutdownChan) in the non-test files of otelcol/ "
+        "records whether a deferred recover() precedes it in the same function or it sits inside <sync.Once field>.Do; "
+        "that recover()/sync.Once make a double close harmless is Go semantics (trusted)",
         "the harness's reading of which select branch was taken comes from the collector's own log messages (zap hook)",
         "OS signal delivery (signal.Notify) is replaced by sends on Collector.signalsChannel; real config providers by an instrumented one",
     ],
